@@ -118,6 +118,7 @@ type nestedReq struct {
 type executor struct {
 	routers map[int]*mux.Router[*H]
 	matcherCache map[string]mux.Matcher // stand-alone matchers of `match` ops, by expression
+	traceCalls   int
 	facades map[int]*facadeSt
 	facadeRouter map[int]*mux.Router[*H]
 	hosts   map[int]*mux.Hosts
@@ -1149,7 +1150,8 @@ func (x *executor) stepInner(line string) string {
 			req := mkRequest(t[2], t[3], "example.com", t[4])
 			req.Body = io.NopCloser(strings.NewReader(decB(t[5])))
 			r := newRec()
-			if len(t[3])%2 == 1 { // a middleware in front of the helper chose a default Content-Type: the helper's own still goes out
+			x.traceCalls++
+			if x.traceCalls%2 == 1 { // a middleware in front of the helper chose a default Content-Type: the helper's own still goes out
 				r.Header().Set("Content-Type", "application/json; charset=utf-8")
 			}
 			mux.Trace(r, req, t[1] == "1")
